@@ -522,6 +522,46 @@ pub fn one_container(c: &BorshSchemaContainer, out: &mut Sink) {
     out.case(&format!("contread {}", hex(&bs)), &format!("readable={}", readable(&c2)));
 }
 
+/// deep and long definition chains: a zero-sized leaf behind `depth` wrappers as the element of a
+/// length-prefixed sequence (validation has to flag it at any depth), and linear chains through
+/// every definition of the container that end in an undefined declaration (the analyses have to
+/// name the missing declaration, not report a cycle)
+pub fn deep_chain_containers(out: &mut Sink) {
+    for depth in [1usize, 2, 5, 17, 31, 32, 33, 40, 64, 100] {
+        for kind in 0..3u8 {
+            let mut m: BTreeMap<Declaration, Definition> = BTreeMap::new();
+            m.insert("Seq".into(), Definition::Sequence { length_width: 4, length_range: 0..=u32::MAX as u64, elements: "W000".into() });
+            for i in 0..depth {
+                let next = if i + 1 == depth { "()".to_string() } else { format!("W{:03}", i + 1) };
+                let d = match kind {
+                    0 => Definition::Tuple { elements: vec![next] },
+                    1 => Definition::Struct { fields: Fields::NamedFields(vec![("inner".into(), next)]) },
+                    _ => Definition::Sequence { length_width: 0, length_range: 3..=3, elements: next },
+                };
+                m.insert(format!("W{:03}", i), d);
+            }
+            m.insert("()".into(), Definition::Primitive(0));
+            one_container(&BorshSchemaContainer::new("Seq".into(), m), out);
+        }
+    }
+    for n in [0usize, 1, 2, 3, 6, 20] {
+        for kind in 0..3u8 {
+            let mut m: BTreeMap<Declaration, Definition> = BTreeMap::new();
+            for i in 0..n {
+                let next = if i + 1 == n { "Ghost".to_string() } else { format!("L{:02}", i + 1) };
+                let d = match kind {
+                    0 => Definition::Tuple { elements: vec![next] },
+                    1 => Definition::Sequence { length_width: 4, length_range: 0..=7, elements: next },
+                    _ => Definition::Enum { tag_width: 1, variants: vec![(0, "A".into(), next)] },
+                };
+                m.insert(format!("L{:02}", i), d);
+            }
+            let root = if n == 0 { "Ghost".to_string() } else { "L00".to_string() };
+            one_container(&BorshSchemaContainer::new(root, m), out);
+        }
+    }
+}
+
 /// committed corpus: witnesses of the (repaired) findings F1-F3 and other minimised shapes
 pub fn container_corpus(out: &mut Sink) {
     let mk = |root: &str, defs: Vec<(&str, Definition)>| {
@@ -575,6 +615,7 @@ pub fn container_corpus(out: &mut Sink) {
 
 pub fn containers(g: &mut Gen, n: usize, out: &mut Sink) {
     container_corpus(out);
+    deep_chain_containers(out);
     for i in 0..n {
         let c = match i % 4 {
             2 => gen_cyclic_container(g),
